@@ -33,7 +33,7 @@ Theorem C02_apply_enters_consumed : forall net s m t m', apply_txn2 net s m t = 
 Proof. exact apply_txn2_spends. Qed.
 Print Assumptions C02_apply_enters_consumed.
 
-(* validation admits a transaction only if none of the elements it consumes is already entered and none occurs twice *)
+(* validation accepts a transaction only if none of the elements it consumes is already entered and none occurs twice *)
 Theorem C02_validate_refuses_consumed : forall H net vt pt se sd s m t, validate_txn2 H net vt pt se sd s m t = Ok tt ->
   Forall (fun i => is_spent m i = false) (sci_ids t) /\ NoDup (sci_ids t) /\
   Forall (fun i => is_spent m i = false) (sfi_ids t) /\ NoDup (sfi_ids t) /\
